@@ -114,4 +114,183 @@ theorem samplers_refines (x0 y0 z0 x1 y1 z1 sx sy sz : Rat) (hsz : 0 < sz) (F : 
 example : (raster_get_samplers Py.ratFld 10 [-1, -1, -1] [2, 2, 4] [1, 1/2, 2]).map (fun r => r.1.map (·.lo.2.2)) = some [0, 2] := by
   decide +kernel
 
+/-! ## the bounding box of `transform` -/
+
+/-- a node: its centre and its radius -/
+abbrev Pt := (Rat × Rat × Rat) × Rat
+
+/-- the `(n, 3)` coordinate array `x.xyz()` and the radius column `x.r()` of the nodes -/
+def rowsOf (pts : List Pt) : List (List Rat) := pts.map fun p => [p.1.1, p.1.2.1, p.1.2.2]
+def radii (pts : List Pt) : List Rat := pts.map (·.2)
+
+/-- the model's bounding box along one coordinate (`Img.bbox` of that coordinate column and the radii) -/
+def bboxAx (cx : Pt → Rat) (pts : List Pt) : Rat × Rat := Img.bbox (pts.map cx) (radii pts)
+
+theorem zipWith_map_map {α β γ δ : Type} (g : β → γ → δ) (a : α → β) (b : α → γ) :
+    ∀ ps : List α, List.zipWith g (ps.map a) (ps.map b) = ps.map fun p => g (a p) (b p)
+  | [] => rfl
+  | p :: ps => by simp [zipWith_map_map g a b ps]
+
+theorem bcast_rows (f : Rat → Rat → Rat) (pts : List Pt) :
+    Py.bcastCol f (rowsOf pts) (radii pts) = some (pts.map fun p => [f p.1.1 p.2, f p.1.2.1 p.2, f p.1.2.2 p.2]) := by
+  simp [Py.bcastCol, rowsOf, radii, zipWith_map_map]
+
+theorem foldl_zipWith3 (f : Rat → Rat → Rat) (gx gy gz : Pt → Rat) : ∀ (ps : List Pt) (a b c : Rat),
+    (ps.map fun p => [gx p, gy p, gz p]).foldl (fun acc row => List.zipWith f acc row) [a, b, c]
+      = [(ps.map gx).foldl f a, (ps.map gy).foldl f b, (ps.map gz).foldl f c]
+  | [], _, _, _ => rfl
+  | p :: ps, a, b, c => by simp [foldl_zipWith3 f gx gy gz ps]
+
+theorem reduce_rows (f : Rat → Rat → Rat) (gx gy gz : Pt → Rat) (p : Pt) (ps : List Pt) :
+    Py.reduceAxis0 f ((p :: ps).map fun p => [gx p, gy p, gz p])
+      = some [(ps.map gx).foldl f (gx p), (ps.map gy).foldl f (gy p), (ps.map gz).foldl f (gz p)] := by
+  simp [Py.reduceAxis0, foldl_zipWith3]
+
+theorem bbox_cons (cx : Pt → Rat) (p : Pt) (ps : List Pt) :
+    bboxAx cx (p :: ps) = ((((ps.map fun q => cx q - q.2).foldl Py.minK (cx p - p.2)).floor : Rat),
+                           (((ps.map fun q => cx q + q.2).foldl Py.maxK (cx p + p.2)).ceil : Rat)) := by
+  have e1 : ∀ l : List Rat, ∀ a : Rat, l.foldl (fun a b => if b < a then b else a) a = l.foldl Py.minK a := fun _ _ => rfl
+  have e2 : ∀ l : List Rat, ∀ a : Rat, l.foldl (fun a b => if b > a then b else a) a = l.foldl Py.maxK a := fun _ _ => rfl
+  simp only [bboxAx, Img.bbox, radii, List.map_cons, List.zip_cons_cons, List.headD_cons, List.foldl_cons, lt_self_iff_false, if_false,
+    gt_iff_lt, List.zip_map', List.map_map, Function.comp_def, e1]
+  have e3 : ∀ a : Rat, Py.minK a a = a := fun a => by simp [Py.minK]
+  rw [e3]
+  rfl
+
+/-- **the bounding box of `transform` as translated**: `np.floor(np.min(xyz - r, axis=0))` / `np.ceil(np.max(xyz + r, axis=0))` are the model's
+`Img.bbox` of every coordinate column — for every non-empty list of nodes -/
+theorem bbox_refines (pts : List Pt) (hne : pts ≠ []) :
+    ((Py.bcastCol (fun x y => x - y) (rowsOf pts) (radii pts)).bind Py.minAxis0).map Py.floorArr
+      = some [(bboxAx (·.1.1) pts).1, (bboxAx (·.1.2.1) pts).1, (bboxAx (·.1.2.2) pts).1] ∧
+    ((Py.bcastCol (fun x y => x + y) (rowsOf pts) (radii pts)).bind Py.maxAxis0).map Py.ceilArr
+      = some [(bboxAx (·.1.1) pts).2, (bboxAx (·.1.2.1) pts).2, (bboxAx (·.1.2.2) pts).2] := by
+  obtain ⟨p, ps, rfl⟩ := List.exists_cons_of_ne_nil hne
+  rw [bcast_rows, bcast_rows, bbox_cons, bbox_cons, bbox_cons]
+  simp only [Option.bind_some, Py.minAxis0, Py.maxAxis0]
+  rw [reduce_rows Py.minK (fun p => p.1.1 - p.2) (fun p => p.1.2.1 - p.2) (fun p => p.1.2.2 - p.2),
+    reduce_rows Py.maxK (fun p => p.1.1 + p.2) (fun p => p.1.2.1 + p.2) (fun p => p.1.2.2 + p.2)]
+  simp [Py.floorArr, Py.ceilArr, Py.Flr.floor, Py.Fld.ofInt, Py.Fld.ceil]
+
+/-! ## `_get_scene`: the per-edge case analysis of `leave` -/
+
+/-- row `i` of the table (a default node outside it) -/
+def P (pts : List Pt) (i : Int) : Pt := pts.getD i.toNat default
+
+/-- `i` is a row index of the table -/
+def ok (pts : List Pt) (i : Int) : Prop := 0 ≤ i ∧ i < pts.length
+
+/-- **the solid `leave` adds for the edge parent `n` → child `c`**: when the distance handed to the comparison is at most `|r_n - r_c|` the
+ball of the larger radius (the parent's on a tie), else the round cone -/
+def edgeSolid (dist : Int → Int → Rat) (pts : List Pt) (n c : Int) : Py.Sdf Rat :=
+  if dist c n ≤ |(P pts n).2 - (P pts c).2| then
+    (if (P pts n).2 ≥ (P pts c).2 then .sphere (P pts n).1 (P pts n).2 else .sphere (P pts c).1 (P pts c).2)
+  else .cone (P pts n).1 (P pts c).1 (P pts n).2 (P pts c).2
+
+theorem absK_eq (x : Rat) : Py.absK x = |x| := by
+  unfold Py.absK
+  split
+  · rw [abs_of_neg ‹_›]; ring
+  · rw [abs_of_nonneg (not_lt.mp ‹_›)]
+
+theorem idx_radii (pts : List Pt) (i : Int) (h : ok pts i) : Py.idx (radii pts) i = some (P pts i).2 := by
+  obtain ⟨k, rfl⟩ := Int.eq_ofNat_of_zero_le h.1
+  have hk : k < pts.length := by have := h.2; omega
+  rw [Py.idx_nat _ _ (by simpa [radii] using hk)]
+  simp [radii, P, hk]
+
+theorem idx_rows (pts : List Pt) (i : Int) (h : ok pts i) :
+    Py.idx (rowsOf pts) i = some [(P pts i).1.1, (P pts i).1.2.1, (P pts i).1.2.2] := by
+  obtain ⟨k, rfl⟩ := Int.eq_ofNat_of_zero_le h.1
+  have hk : k < pts.length := by have := h.2; omega
+  rw [Py.idx_nat _ _ (by simpa [rowsOf] using hk)]
+  simp [rowsOf, P, hk]
+
+/-- one iteration of `for c in children` -/
+theorem for1_step (dist : Int → Int → Rat) (pts : List Pt) (c : Int) (v : raster_leave.V Rat) (hx : v.xyz = rowsOf pts) (hr : v.rs = radii pts)
+    (hn : ok pts v.n) (hc : ok pts c) :
+    ∃ big' sdf', raster_leave.for1 dist c v = .next { v with c := c, big := big', sdf := sdf', scene := v.scene ++ [edgeSolid dist pts v.n c] } := by
+  have ige : ∀ a b : Rat, (a ≥ b) = (b ≤ a) := fun _ _ => rfl
+  by_cases h1 : dist c v.n ≤ |(P pts v.n).2 - (P pts c).2|
+  · by_cases h2 : (P pts c).2 ≤ (P pts v.n).2
+    · refine ⟨v.n, .sphere (P pts v.n).1 (P pts v.n).2, ?_⟩
+      simp [raster_leave.for1, Py.seq, Py.bind, hx, hr, idx_radii, idx_rows, hn, hc, absK_eq, h1, h2, tp3f_eq, edgeSolid, ige]
+    · refine ⟨c, .sphere (P pts c).1 (P pts c).2, ?_⟩
+      simp [raster_leave.for1, Py.seq, Py.bind, hx, hr, idx_radii, idx_rows, hn, hc, absK_eq, h1, h2, tp3f_eq, edgeSolid, ige]
+  · refine ⟨v.big, .cone (P pts v.n).1 (P pts c).1 (P pts v.n).2 (P pts c).2, ?_⟩
+    simp [raster_leave.for1, Py.seq, Py.bind, hx, hr, idx_radii, idx_rows, hn, hc, absK_eq, h1, tp3f_eq, edgeSolid]
+
+/-- the loop `for c in children` of `leave` appends the solids of the edges to the children, in order -/
+theorem for1_loop (dist : Int → Int → Rat) (pts : List Pt) : ∀ (cs : List Int) (v : raster_leave.V Rat), v.xyz = rowsOf pts → v.rs = radii pts →
+    ok pts v.n → (∀ c ∈ cs, ok pts c) →
+    ∃ c' big' sdf', Py.forEach (raster_leave.for1 dist) cs v
+      = .next { v with c := c', big := big', sdf := sdf', scene := v.scene ++ cs.map (edgeSolid dist pts v.n) }
+  | [], v, _, _, _, _ => ⟨v.c, v.big, v.sdf, by cases v; simp [Py.forEach]⟩
+  | c :: cs, v, hx, hr, hn, hcs => by
+    obtain ⟨b1, s1, e1⟩ := for1_step dist pts c v hx hr hn (hcs c List.mem_cons_self)
+    obtain ⟨c2, b2, s2, e2⟩ := for1_loop dist pts cs
+      { v with c := c, big := b1, sdf := s1, scene := v.scene ++ [edgeSolid dist pts v.n c] } hx hr hn
+      (fun c' h => hcs c' (List.mem_cons_of_mem _ h))
+    refine ⟨c2, b2, s2, ?_⟩
+    simp only [Py.forEach, e1]
+    rw [e2]
+    simp
+
+/-- **the `leave` closure as translated on this run**: on rows of the table it never raises, leaves the coordinate / radius columns alone,
+appends the solid of every edge to a child (in the order of the children) and returns the node -/
+theorem leave_refines (dist : Int → Int → Rat) (pts : List Pt) (sc : List (Py.Sdf Rat)) (n : Int) (ks : List Int)
+    (hn : ok pts n) (hks : ∀ c ∈ ks, ok pts c) :
+    raster_leave dist (sc, rowsOf pts, radii pts) n ks
+      = some ((sc ++ ks.map (edgeSolid dist pts n), rowsOf pts, radii pts), n) := by
+  obtain ⟨c', b', s', e⟩ := for1_loop dist pts ks
+    { (default : raster_leave.V Rat) with n := n, children := ks, scene := sc, xyz := rowsOf pts, rs := radii pts } rfl rfl hn hks
+  simp only [raster_leave, raster_leave.body, Py.seq, e, Py.finish, Option.map_some]
+
+/-! ### the whole scene, through the generated `Tree.traverse` -/
+
+mutual
+/-- **the model scene of a tree**: the solids in the order `_get_scene` adds them — the subtrees of the children from the last to the first,
+then the edges from the node to its children in table order -/
+def sceneRose (E : Int → Int → Py.Sdf Rat) : Rose → List (Py.Sdf Rat)
+  | .node i ks => sceneRoseL E ks ++ (ks.map Rose.id).map (E i)
+def sceneRoseL (E : Int → Int → Py.Sdf Rat) : List Rose → List (Py.Sdf Rat)
+  | [] => []
+  | r :: rs => sceneRoseL E rs ++ sceneRose E r
+end
+
+mutual
+theorem spec_scene (dist : Int → Int → Rat) (pts : List Pt) :
+    ∀ (r : Rose) (pv : Option Unit) (sc : List (Py.Sdf Rat)), (∀ j ∈ r.ids, ok pts j) →
+      spec Py.absent2 (Py.wrap2 (raster_leave dist)) r pv (some (sc, rowsOf pts, radii pts))
+        = (some (sc ++ sceneRose (edgeSolid dist pts) r, rowsOf pts, radii pts), r.id)
+  | .node i ks, pv, sc, hok => by
+    have hi : ok pts i := hok i (by simp [Rose.ids])
+    have hks : ∀ c ∈ ks.map Rose.id, ok pts c := by
+      intro c hc
+      obtain ⟨k, hk, rfl⟩ := List.mem_map.mp hc
+      exact hok _ (by simp [Rose.ids, mem_idsL_of_mem hk])
+    simp only [spec, Py.absent2]
+    rw [specRev_scene dist pts ks () sc (fun j hj => hok j (by simp [Rose.ids, hj]))]
+    simp only [Py.wrap2, leave_refines dist pts _ i _ hi hks, sceneRose, Rose.id, List.append_assoc]
+theorem specRev_scene (dist : Int → Int → Rat) (pts : List Pt) :
+    ∀ (ks : List Rose) (cur : Unit) (sc : List (Py.Sdf Rat)), (∀ j ∈ idsL ks, ok pts j) →
+      specRev Py.absent2 (Py.wrap2 (raster_leave dist)) ks cur (some (sc, rowsOf pts, radii pts))
+        = (some (sc ++ sceneRoseL (edgeSolid dist pts) ks, rowsOf pts, radii pts), ks.map Rose.id)
+  | [], _, sc, _ => by simp [specRev, sceneRoseL]
+  | r :: rs, cur, sc, hok => by
+    simp only [specRev]
+    rw [specRev_scene dist pts rs cur sc (fun j hj => hok j (by simp [idsL, hj]))]
+    simp only
+    rw [spec_scene dist pts r (some cur) _ (fun j hj => hok j (by simp [idsL, hj]))]
+    simp [sceneRoseL, List.append_assoc]
+end
+
+/-- **`ToImageStack._get_scene` as translated on this run**: on every tree (a table whose subtree at node 0 is `r`, every node a row of the
+coordinate table) the call — through the generated `Tree.traverse` and `_traverse_dfs` — never raises, never runs out of fuel
+(`2·size + 1` suffices) and returns the model scene: one solid per edge, chosen by `edgeSolid` -/
+theorem getScene_refines (dist : Int → Int → Rat) (pts : List Pt) (ids pids : List Int) (r : Rose) (hR : Represents r ids pids) (h0 : r.id = 0)
+    (hrows : Rows r ids) (hok : ∀ j ∈ r.ids, ok pts j) (F : Nat) :
+    raster_get_scene dist (2 * r.size + F + 1) ids pids (rowsOf pts) (radii pts) = some (sceneRose (edgeSolid dist pts) r) := by
+  simp [raster_get_scene, raster_get_scene.body, Py.seq, Py.bind, tree_traverse_l_refines _ ids pids r hR h0 hrows _ F,
+    spec_scene dist pts r none [] hok, Py.unwrapCb, Py.finish]
+
 end RefineRaster
